@@ -176,63 +176,72 @@ Record state := mkState {
   dispatched : list msg;
   returned : list (op * result);
   retrieved : list (option msg);
-  dropped : list msg
+  dropped : list msg;
+  taken : list msg;
+  got : list msg;
+  cleared : list msg
 }.
 
 Definition set_out_q (v : list msg) (s : state) : state :=
-  {| out_q := v; in_q := in_q s; events := events s; filt := filt s; clock := clock s; wire := wire s; spont := spont s; locked := locked s; lk := lk s; locked_q := locked_q s; sync_mode := sync_mode s; sync_q := sync_q s; a_pc := a_pc s; a_script := a_script s; a_start := a_start s; a_vbuf := a_vbuf s; a_late := a_late s; r_pc := r_pc s; r_buf := r_buf s; w_pc := w_pc s; c_pc := c_pc s; emitted := emitted s; delivered := delivered s; dispatched := dispatched s; returned := returned s; retrieved := retrieved s; dropped := dropped s |}.
+  {| out_q := v; in_q := in_q s; events := events s; filt := filt s; clock := clock s; wire := wire s; spont := spont s; locked := locked s; lk := lk s; locked_q := locked_q s; sync_mode := sync_mode s; sync_q := sync_q s; a_pc := a_pc s; a_script := a_script s; a_start := a_start s; a_vbuf := a_vbuf s; a_late := a_late s; r_pc := r_pc s; r_buf := r_buf s; w_pc := w_pc s; c_pc := c_pc s; emitted := emitted s; delivered := delivered s; dispatched := dispatched s; returned := returned s; retrieved := retrieved s; dropped := dropped s; taken := taken s; got := got s; cleared := cleared s |}.
 Definition set_in_q (v : list (list chunk)) (s : state) : state :=
-  {| out_q := out_q s; in_q := v; events := events s; filt := filt s; clock := clock s; wire := wire s; spont := spont s; locked := locked s; lk := lk s; locked_q := locked_q s; sync_mode := sync_mode s; sync_q := sync_q s; a_pc := a_pc s; a_script := a_script s; a_start := a_start s; a_vbuf := a_vbuf s; a_late := a_late s; r_pc := r_pc s; r_buf := r_buf s; w_pc := w_pc s; c_pc := c_pc s; emitted := emitted s; delivered := delivered s; dispatched := dispatched s; returned := returned s; retrieved := retrieved s; dropped := dropped s |}.
+  {| out_q := out_q s; in_q := v; events := events s; filt := filt s; clock := clock s; wire := wire s; spont := spont s; locked := locked s; lk := lk s; locked_q := locked_q s; sync_mode := sync_mode s; sync_q := sync_q s; a_pc := a_pc s; a_script := a_script s; a_start := a_start s; a_vbuf := a_vbuf s; a_late := a_late s; r_pc := r_pc s; r_buf := r_buf s; w_pc := w_pc s; c_pc := c_pc s; emitted := emitted s; delivered := delivered s; dispatched := dispatched s; returned := returned s; retrieved := retrieved s; dropped := dropped s; taken := taken s; got := got s; cleared := cleared s |}.
 Definition set_events (v : list msg) (s : state) : state :=
-  {| out_q := out_q s; in_q := in_q s; events := v; filt := filt s; clock := clock s; wire := wire s; spont := spont s; locked := locked s; lk := lk s; locked_q := locked_q s; sync_mode := sync_mode s; sync_q := sync_q s; a_pc := a_pc s; a_script := a_script s; a_start := a_start s; a_vbuf := a_vbuf s; a_late := a_late s; r_pc := r_pc s; r_buf := r_buf s; w_pc := w_pc s; c_pc := c_pc s; emitted := emitted s; delivered := delivered s; dispatched := dispatched s; returned := returned s; retrieved := retrieved s; dropped := dropped s |}.
+  {| out_q := out_q s; in_q := in_q s; events := v; filt := filt s; clock := clock s; wire := wire s; spont := spont s; locked := locked s; lk := lk s; locked_q := locked_q s; sync_mode := sync_mode s; sync_q := sync_q s; a_pc := a_pc s; a_script := a_script s; a_start := a_start s; a_vbuf := a_vbuf s; a_late := a_late s; r_pc := r_pc s; r_buf := r_buf s; w_pc := w_pc s; c_pc := c_pc s; emitted := emitted s; delivered := delivered s; dispatched := dispatched s; returned := returned s; retrieved := retrieved s; dropped := dropped s; taken := taken s; got := got s; cleared := cleared s |}.
 Definition set_filt (v : option N) (s : state) : state :=
-  {| out_q := out_q s; in_q := in_q s; events := events s; filt := v; clock := clock s; wire := wire s; spont := spont s; locked := locked s; lk := lk s; locked_q := locked_q s; sync_mode := sync_mode s; sync_q := sync_q s; a_pc := a_pc s; a_script := a_script s; a_start := a_start s; a_vbuf := a_vbuf s; a_late := a_late s; r_pc := r_pc s; r_buf := r_buf s; w_pc := w_pc s; c_pc := c_pc s; emitted := emitted s; delivered := delivered s; dispatched := dispatched s; returned := returned s; retrieved := retrieved s; dropped := dropped s |}.
+  {| out_q := out_q s; in_q := in_q s; events := events s; filt := v; clock := clock s; wire := wire s; spont := spont s; locked := locked s; lk := lk s; locked_q := locked_q s; sync_mode := sync_mode s; sync_q := sync_q s; a_pc := a_pc s; a_script := a_script s; a_start := a_start s; a_vbuf := a_vbuf s; a_late := a_late s; r_pc := r_pc s; r_buf := r_buf s; w_pc := w_pc s; c_pc := c_pc s; emitted := emitted s; delivered := delivered s; dispatched := dispatched s; returned := returned s; retrieved := retrieved s; dropped := dropped s; taken := taken s; got := got s; cleared := cleared s |}.
 Definition set_clock (v : N) (s : state) : state :=
-  {| out_q := out_q s; in_q := in_q s; events := events s; filt := filt s; clock := v; wire := wire s; spont := spont s; locked := locked s; lk := lk s; locked_q := locked_q s; sync_mode := sync_mode s; sync_q := sync_q s; a_pc := a_pc s; a_script := a_script s; a_start := a_start s; a_vbuf := a_vbuf s; a_late := a_late s; r_pc := r_pc s; r_buf := r_buf s; w_pc := w_pc s; c_pc := c_pc s; emitted := emitted s; delivered := delivered s; dispatched := dispatched s; returned := returned s; retrieved := retrieved s; dropped := dropped s |}.
+  {| out_q := out_q s; in_q := in_q s; events := events s; filt := filt s; clock := v; wire := wire s; spont := spont s; locked := locked s; lk := lk s; locked_q := locked_q s; sync_mode := sync_mode s; sync_q := sync_q s; a_pc := a_pc s; a_script := a_script s; a_start := a_start s; a_vbuf := a_vbuf s; a_late := a_late s; r_pc := r_pc s; r_buf := r_buf s; w_pc := w_pc s; c_pc := c_pc s; emitted := emitted s; delivered := delivered s; dispatched := dispatched s; returned := returned s; retrieved := retrieved s; dropped := dropped s; taken := taken s; got := got s; cleared := cleared s |}.
 Definition set_wire (v : list chunk) (s : state) : state :=
-  {| out_q := out_q s; in_q := in_q s; events := events s; filt := filt s; clock := clock s; wire := v; spont := spont s; locked := locked s; lk := lk s; locked_q := locked_q s; sync_mode := sync_mode s; sync_q := sync_q s; a_pc := a_pc s; a_script := a_script s; a_start := a_start s; a_vbuf := a_vbuf s; a_late := a_late s; r_pc := r_pc s; r_buf := r_buf s; w_pc := w_pc s; c_pc := c_pc s; emitted := emitted s; delivered := delivered s; dispatched := dispatched s; returned := returned s; retrieved := retrieved s; dropped := dropped s |}.
+  {| out_q := out_q s; in_q := in_q s; events := events s; filt := filt s; clock := clock s; wire := v; spont := spont s; locked := locked s; lk := lk s; locked_q := locked_q s; sync_mode := sync_mode s; sync_q := sync_q s; a_pc := a_pc s; a_script := a_script s; a_start := a_start s; a_vbuf := a_vbuf s; a_late := a_late s; r_pc := r_pc s; r_buf := r_buf s; w_pc := w_pc s; c_pc := c_pc s; emitted := emitted s; delivered := delivered s; dispatched := dispatched s; returned := returned s; retrieved := retrieved s; dropped := dropped s; taken := taken s; got := got s; cleared := cleared s |}.
 Definition set_spont (v : list chunk) (s : state) : state :=
-  {| out_q := out_q s; in_q := in_q s; events := events s; filt := filt s; clock := clock s; wire := wire s; spont := v; locked := locked s; lk := lk s; locked_q := locked_q s; sync_mode := sync_mode s; sync_q := sync_q s; a_pc := a_pc s; a_script := a_script s; a_start := a_start s; a_vbuf := a_vbuf s; a_late := a_late s; r_pc := r_pc s; r_buf := r_buf s; w_pc := w_pc s; c_pc := c_pc s; emitted := emitted s; delivered := delivered s; dispatched := dispatched s; returned := returned s; retrieved := retrieved s; dropped := dropped s |}.
+  {| out_q := out_q s; in_q := in_q s; events := events s; filt := filt s; clock := clock s; wire := wire s; spont := v; locked := locked s; lk := lk s; locked_q := locked_q s; sync_mode := sync_mode s; sync_q := sync_q s; a_pc := a_pc s; a_script := a_script s; a_start := a_start s; a_vbuf := a_vbuf s; a_late := a_late s; r_pc := r_pc s; r_buf := r_buf s; w_pc := w_pc s; c_pc := c_pc s; emitted := emitted s; delivered := delivered s; dispatched := dispatched s; returned := returned s; retrieved := retrieved s; dropped := dropped s; taken := taken s; got := got s; cleared := cleared s |}.
 Definition set_locked (v : bool) (s : state) : state :=
-  {| out_q := out_q s; in_q := in_q s; events := events s; filt := filt s; clock := clock s; wire := wire s; spont := spont s; locked := v; lk := lk s; locked_q := locked_q s; sync_mode := sync_mode s; sync_q := sync_q s; a_pc := a_pc s; a_script := a_script s; a_start := a_start s; a_vbuf := a_vbuf s; a_late := a_late s; r_pc := r_pc s; r_buf := r_buf s; w_pc := w_pc s; c_pc := c_pc s; emitted := emitted s; delivered := delivered s; dispatched := dispatched s; returned := returned s; retrieved := retrieved s; dropped := dropped s |}.
+  {| out_q := out_q s; in_q := in_q s; events := events s; filt := filt s; clock := clock s; wire := wire s; spont := spont s; locked := v; lk := lk s; locked_q := locked_q s; sync_mode := sync_mode s; sync_q := sync_q s; a_pc := a_pc s; a_script := a_script s; a_start := a_start s; a_vbuf := a_vbuf s; a_late := a_late s; r_pc := r_pc s; r_buf := r_buf s; w_pc := w_pc s; c_pc := c_pc s; emitted := emitted s; delivered := delivered s; dispatched := dispatched s; returned := returned s; retrieved := retrieved s; dropped := dropped s; taken := taken s; got := got s; cleared := cleared s |}.
 Definition set_lk (v : bool) (s : state) : state :=
-  {| out_q := out_q s; in_q := in_q s; events := events s; filt := filt s; clock := clock s; wire := wire s; spont := spont s; locked := locked s; lk := v; locked_q := locked_q s; sync_mode := sync_mode s; sync_q := sync_q s; a_pc := a_pc s; a_script := a_script s; a_start := a_start s; a_vbuf := a_vbuf s; a_late := a_late s; r_pc := r_pc s; r_buf := r_buf s; w_pc := w_pc s; c_pc := c_pc s; emitted := emitted s; delivered := delivered s; dispatched := dispatched s; returned := returned s; retrieved := retrieved s; dropped := dropped s |}.
+  {| out_q := out_q s; in_q := in_q s; events := events s; filt := filt s; clock := clock s; wire := wire s; spont := spont s; locked := locked s; lk := v; locked_q := locked_q s; sync_mode := sync_mode s; sync_q := sync_q s; a_pc := a_pc s; a_script := a_script s; a_start := a_start s; a_vbuf := a_vbuf s; a_late := a_late s; r_pc := r_pc s; r_buf := r_buf s; w_pc := w_pc s; c_pc := c_pc s; emitted := emitted s; delivered := delivered s; dispatched := dispatched s; returned := returned s; retrieved := retrieved s; dropped := dropped s; taken := taken s; got := got s; cleared := cleared s |}.
 Definition set_locked_q (v : list msg) (s : state) : state :=
-  {| out_q := out_q s; in_q := in_q s; events := events s; filt := filt s; clock := clock s; wire := wire s; spont := spont s; locked := locked s; lk := lk s; locked_q := v; sync_mode := sync_mode s; sync_q := sync_q s; a_pc := a_pc s; a_script := a_script s; a_start := a_start s; a_vbuf := a_vbuf s; a_late := a_late s; r_pc := r_pc s; r_buf := r_buf s; w_pc := w_pc s; c_pc := c_pc s; emitted := emitted s; delivered := delivered s; dispatched := dispatched s; returned := returned s; retrieved := retrieved s; dropped := dropped s |}.
+  {| out_q := out_q s; in_q := in_q s; events := events s; filt := filt s; clock := clock s; wire := wire s; spont := spont s; locked := locked s; lk := lk s; locked_q := v; sync_mode := sync_mode s; sync_q := sync_q s; a_pc := a_pc s; a_script := a_script s; a_start := a_start s; a_vbuf := a_vbuf s; a_late := a_late s; r_pc := r_pc s; r_buf := r_buf s; w_pc := w_pc s; c_pc := c_pc s; emitted := emitted s; delivered := delivered s; dispatched := dispatched s; returned := returned s; retrieved := retrieved s; dropped := dropped s; taken := taken s; got := got s; cleared := cleared s |}.
 Definition set_sync_mode (v : N) (s : state) : state :=
-  {| out_q := out_q s; in_q := in_q s; events := events s; filt := filt s; clock := clock s; wire := wire s; spont := spont s; locked := locked s; lk := lk s; locked_q := locked_q s; sync_mode := v; sync_q := sync_q s; a_pc := a_pc s; a_script := a_script s; a_start := a_start s; a_vbuf := a_vbuf s; a_late := a_late s; r_pc := r_pc s; r_buf := r_buf s; w_pc := w_pc s; c_pc := c_pc s; emitted := emitted s; delivered := delivered s; dispatched := dispatched s; returned := returned s; retrieved := retrieved s; dropped := dropped s |}.
+  {| out_q := out_q s; in_q := in_q s; events := events s; filt := filt s; clock := clock s; wire := wire s; spont := spont s; locked := locked s; lk := lk s; locked_q := locked_q s; sync_mode := v; sync_q := sync_q s; a_pc := a_pc s; a_script := a_script s; a_start := a_start s; a_vbuf := a_vbuf s; a_late := a_late s; r_pc := r_pc s; r_buf := r_buf s; w_pc := w_pc s; c_pc := c_pc s; emitted := emitted s; delivered := delivered s; dispatched := dispatched s; returned := returned s; retrieved := retrieved s; dropped := dropped s; taken := taken s; got := got s; cleared := cleared s |}.
 Definition set_sync_q (v : list msg) (s : state) : state :=
-  {| out_q := out_q s; in_q := in_q s; events := events s; filt := filt s; clock := clock s; wire := wire s; spont := spont s; locked := locked s; lk := lk s; locked_q := locked_q s; sync_mode := sync_mode s; sync_q := v; a_pc := a_pc s; a_script := a_script s; a_start := a_start s; a_vbuf := a_vbuf s; a_late := a_late s; r_pc := r_pc s; r_buf := r_buf s; w_pc := w_pc s; c_pc := c_pc s; emitted := emitted s; delivered := delivered s; dispatched := dispatched s; returned := returned s; retrieved := retrieved s; dropped := dropped s |}.
+  {| out_q := out_q s; in_q := in_q s; events := events s; filt := filt s; clock := clock s; wire := wire s; spont := spont s; locked := locked s; lk := lk s; locked_q := locked_q s; sync_mode := sync_mode s; sync_q := v; a_pc := a_pc s; a_script := a_script s; a_start := a_start s; a_vbuf := a_vbuf s; a_late := a_late s; r_pc := r_pc s; r_buf := r_buf s; w_pc := w_pc s; c_pc := c_pc s; emitted := emitted s; delivered := delivered s; dispatched := dispatched s; returned := returned s; retrieved := retrieved s; dropped := dropped s; taken := taken s; got := got s; cleared := cleared s |}.
 Definition set_a_pc (v : apc) (s : state) : state :=
-  {| out_q := out_q s; in_q := in_q s; events := events s; filt := filt s; clock := clock s; wire := wire s; spont := spont s; locked := locked s; lk := lk s; locked_q := locked_q s; sync_mode := sync_mode s; sync_q := sync_q s; a_pc := v; a_script := a_script s; a_start := a_start s; a_vbuf := a_vbuf s; a_late := a_late s; r_pc := r_pc s; r_buf := r_buf s; w_pc := w_pc s; c_pc := c_pc s; emitted := emitted s; delivered := delivered s; dispatched := dispatched s; returned := returned s; retrieved := retrieved s; dropped := dropped s |}.
+  {| out_q := out_q s; in_q := in_q s; events := events s; filt := filt s; clock := clock s; wire := wire s; spont := spont s; locked := locked s; lk := lk s; locked_q := locked_q s; sync_mode := sync_mode s; sync_q := sync_q s; a_pc := v; a_script := a_script s; a_start := a_start s; a_vbuf := a_vbuf s; a_late := a_late s; r_pc := r_pc s; r_buf := r_buf s; w_pc := w_pc s; c_pc := c_pc s; emitted := emitted s; delivered := delivered s; dispatched := dispatched s; returned := returned s; retrieved := retrieved s; dropped := dropped s; taken := taken s; got := got s; cleared := cleared s |}.
 Definition set_a_script (v : list op) (s : state) : state :=
-  {| out_q := out_q s; in_q := in_q s; events := events s; filt := filt s; clock := clock s; wire := wire s; spont := spont s; locked := locked s; lk := lk s; locked_q := locked_q s; sync_mode := sync_mode s; sync_q := sync_q s; a_pc := a_pc s; a_script := v; a_start := a_start s; a_vbuf := a_vbuf s; a_late := a_late s; r_pc := r_pc s; r_buf := r_buf s; w_pc := w_pc s; c_pc := c_pc s; emitted := emitted s; delivered := delivered s; dispatched := dispatched s; returned := returned s; retrieved := retrieved s; dropped := dropped s |}.
+  {| out_q := out_q s; in_q := in_q s; events := events s; filt := filt s; clock := clock s; wire := wire s; spont := spont s; locked := locked s; lk := lk s; locked_q := locked_q s; sync_mode := sync_mode s; sync_q := sync_q s; a_pc := a_pc s; a_script := v; a_start := a_start s; a_vbuf := a_vbuf s; a_late := a_late s; r_pc := r_pc s; r_buf := r_buf s; w_pc := w_pc s; c_pc := c_pc s; emitted := emitted s; delivered := delivered s; dispatched := dispatched s; returned := returned s; retrieved := retrieved s; dropped := dropped s; taken := taken s; got := got s; cleared := cleared s |}.
 Definition set_a_start (v : N) (s : state) : state :=
-  {| out_q := out_q s; in_q := in_q s; events := events s; filt := filt s; clock := clock s; wire := wire s; spont := spont s; locked := locked s; lk := lk s; locked_q := locked_q s; sync_mode := sync_mode s; sync_q := sync_q s; a_pc := a_pc s; a_script := a_script s; a_start := v; a_vbuf := a_vbuf s; a_late := a_late s; r_pc := r_pc s; r_buf := r_buf s; w_pc := w_pc s; c_pc := c_pc s; emitted := emitted s; delivered := delivered s; dispatched := dispatched s; returned := returned s; retrieved := retrieved s; dropped := dropped s |}.
+  {| out_q := out_q s; in_q := in_q s; events := events s; filt := filt s; clock := clock s; wire := wire s; spont := spont s; locked := locked s; lk := lk s; locked_q := locked_q s; sync_mode := sync_mode s; sync_q := sync_q s; a_pc := a_pc s; a_script := a_script s; a_start := v; a_vbuf := a_vbuf s; a_late := a_late s; r_pc := r_pc s; r_buf := r_buf s; w_pc := w_pc s; c_pc := c_pc s; emitted := emitted s; delivered := delivered s; dispatched := dispatched s; returned := returned s; retrieved := retrieved s; dropped := dropped s; taken := taken s; got := got s; cleared := cleared s |}.
 Definition set_a_vbuf (v : list msg) (s : state) : state :=
-  {| out_q := out_q s; in_q := in_q s; events := events s; filt := filt s; clock := clock s; wire := wire s; spont := spont s; locked := locked s; lk := lk s; locked_q := locked_q s; sync_mode := sync_mode s; sync_q := sync_q s; a_pc := a_pc s; a_script := a_script s; a_start := a_start s; a_vbuf := v; a_late := a_late s; r_pc := r_pc s; r_buf := r_buf s; w_pc := w_pc s; c_pc := c_pc s; emitted := emitted s; delivered := delivered s; dispatched := dispatched s; returned := returned s; retrieved := retrieved s; dropped := dropped s |}.
+  {| out_q := out_q s; in_q := in_q s; events := events s; filt := filt s; clock := clock s; wire := wire s; spont := spont s; locked := locked s; lk := lk s; locked_q := locked_q s; sync_mode := sync_mode s; sync_q := sync_q s; a_pc := a_pc s; a_script := a_script s; a_start := a_start s; a_vbuf := v; a_late := a_late s; r_pc := r_pc s; r_buf := r_buf s; w_pc := w_pc s; c_pc := c_pc s; emitted := emitted s; delivered := delivered s; dispatched := dispatched s; returned := returned s; retrieved := retrieved s; dropped := dropped s; taken := taken s; got := got s; cleared := cleared s |}.
 Definition set_a_late (v : nat) (s : state) : state :=
-  {| out_q := out_q s; in_q := in_q s; events := events s; filt := filt s; clock := clock s; wire := wire s; spont := spont s; locked := locked s; lk := lk s; locked_q := locked_q s; sync_mode := sync_mode s; sync_q := sync_q s; a_pc := a_pc s; a_script := a_script s; a_start := a_start s; a_vbuf := a_vbuf s; a_late := v; r_pc := r_pc s; r_buf := r_buf s; w_pc := w_pc s; c_pc := c_pc s; emitted := emitted s; delivered := delivered s; dispatched := dispatched s; returned := returned s; retrieved := retrieved s; dropped := dropped s |}.
+  {| out_q := out_q s; in_q := in_q s; events := events s; filt := filt s; clock := clock s; wire := wire s; spont := spont s; locked := locked s; lk := lk s; locked_q := locked_q s; sync_mode := sync_mode s; sync_q := sync_q s; a_pc := a_pc s; a_script := a_script s; a_start := a_start s; a_vbuf := a_vbuf s; a_late := v; r_pc := r_pc s; r_buf := r_buf s; w_pc := w_pc s; c_pc := c_pc s; emitted := emitted s; delivered := delivered s; dispatched := dispatched s; returned := returned s; retrieved := retrieved s; dropped := dropped s; taken := taken s; got := got s; cleared := cleared s |}.
 Definition set_r_pc (v : rpc) (s : state) : state :=
-  {| out_q := out_q s; in_q := in_q s; events := events s; filt := filt s; clock := clock s; wire := wire s; spont := spont s; locked := locked s; lk := lk s; locked_q := locked_q s; sync_mode := sync_mode s; sync_q := sync_q s; a_pc := a_pc s; a_script := a_script s; a_start := a_start s; a_vbuf := a_vbuf s; a_late := a_late s; r_pc := v; r_buf := r_buf s; w_pc := w_pc s; c_pc := c_pc s; emitted := emitted s; delivered := delivered s; dispatched := dispatched s; returned := returned s; retrieved := retrieved s; dropped := dropped s |}.
+  {| out_q := out_q s; in_q := in_q s; events := events s; filt := filt s; clock := clock s; wire := wire s; spont := spont s; locked := locked s; lk := lk s; locked_q := locked_q s; sync_mode := sync_mode s; sync_q := sync_q s; a_pc := a_pc s; a_script := a_script s; a_start := a_start s; a_vbuf := a_vbuf s; a_late := a_late s; r_pc := v; r_buf := r_buf s; w_pc := w_pc s; c_pc := c_pc s; emitted := emitted s; delivered := delivered s; dispatched := dispatched s; returned := returned s; retrieved := retrieved s; dropped := dropped s; taken := taken s; got := got s; cleared := cleared s |}.
 Definition set_r_buf (v : list frame) (s : state) : state :=
-  {| out_q := out_q s; in_q := in_q s; events := events s; filt := filt s; clock := clock s; wire := wire s; spont := spont s; locked := locked s; lk := lk s; locked_q := locked_q s; sync_mode := sync_mode s; sync_q := sync_q s; a_pc := a_pc s; a_script := a_script s; a_start := a_start s; a_vbuf := a_vbuf s; a_late := a_late s; r_pc := r_pc s; r_buf := v; w_pc := w_pc s; c_pc := c_pc s; emitted := emitted s; delivered := delivered s; dispatched := dispatched s; returned := returned s; retrieved := retrieved s; dropped := dropped s |}.
+  {| out_q := out_q s; in_q := in_q s; events := events s; filt := filt s; clock := clock s; wire := wire s; spont := spont s; locked := locked s; lk := lk s; locked_q := locked_q s; sync_mode := sync_mode s; sync_q := sync_q s; a_pc := a_pc s; a_script := a_script s; a_start := a_start s; a_vbuf := a_vbuf s; a_late := a_late s; r_pc := r_pc s; r_buf := v; w_pc := w_pc s; c_pc := c_pc s; emitted := emitted s; delivered := delivered s; dispatched := dispatched s; returned := returned s; retrieved := retrieved s; dropped := dropped s; taken := taken s; got := got s; cleared := cleared s |}.
 Definition set_w_pc (v : wpc) (s : state) : state :=
-  {| out_q := out_q s; in_q := in_q s; events := events s; filt := filt s; clock := clock s; wire := wire s; spont := spont s; locked := locked s; lk := lk s; locked_q := locked_q s; sync_mode := sync_mode s; sync_q := sync_q s; a_pc := a_pc s; a_script := a_script s; a_start := a_start s; a_vbuf := a_vbuf s; a_late := a_late s; r_pc := r_pc s; r_buf := r_buf s; w_pc := v; c_pc := c_pc s; emitted := emitted s; delivered := delivered s; dispatched := dispatched s; returned := returned s; retrieved := retrieved s; dropped := dropped s |}.
+  {| out_q := out_q s; in_q := in_q s; events := events s; filt := filt s; clock := clock s; wire := wire s; spont := spont s; locked := locked s; lk := lk s; locked_q := locked_q s; sync_mode := sync_mode s; sync_q := sync_q s; a_pc := a_pc s; a_script := a_script s; a_start := a_start s; a_vbuf := a_vbuf s; a_late := a_late s; r_pc := r_pc s; r_buf := r_buf s; w_pc := v; c_pc := c_pc s; emitted := emitted s; delivered := delivered s; dispatched := dispatched s; returned := returned s; retrieved := retrieved s; dropped := dropped s; taken := taken s; got := got s; cleared := cleared s |}.
 Definition set_c_pc (v : cpc) (s : state) : state :=
-  {| out_q := out_q s; in_q := in_q s; events := events s; filt := filt s; clock := clock s; wire := wire s; spont := spont s; locked := locked s; lk := lk s; locked_q := locked_q s; sync_mode := sync_mode s; sync_q := sync_q s; a_pc := a_pc s; a_script := a_script s; a_start := a_start s; a_vbuf := a_vbuf s; a_late := a_late s; r_pc := r_pc s; r_buf := r_buf s; w_pc := w_pc s; c_pc := v; emitted := emitted s; delivered := delivered s; dispatched := dispatched s; returned := returned s; retrieved := retrieved s; dropped := dropped s |}.
+  {| out_q := out_q s; in_q := in_q s; events := events s; filt := filt s; clock := clock s; wire := wire s; spont := spont s; locked := locked s; lk := lk s; locked_q := locked_q s; sync_mode := sync_mode s; sync_q := sync_q s; a_pc := a_pc s; a_script := a_script s; a_start := a_start s; a_vbuf := a_vbuf s; a_late := a_late s; r_pc := r_pc s; r_buf := r_buf s; w_pc := w_pc s; c_pc := v; emitted := emitted s; delivered := delivered s; dispatched := dispatched s; returned := returned s; retrieved := retrieved s; dropped := dropped s; taken := taken s; got := got s; cleared := cleared s |}.
 Definition set_emitted (v : list msg) (s : state) : state :=
-  {| out_q := out_q s; in_q := in_q s; events := events s; filt := filt s; clock := clock s; wire := wire s; spont := spont s; locked := locked s; lk := lk s; locked_q := locked_q s; sync_mode := sync_mode s; sync_q := sync_q s; a_pc := a_pc s; a_script := a_script s; a_start := a_start s; a_vbuf := a_vbuf s; a_late := a_late s; r_pc := r_pc s; r_buf := r_buf s; w_pc := w_pc s; c_pc := c_pc s; emitted := v; delivered := delivered s; dispatched := dispatched s; returned := returned s; retrieved := retrieved s; dropped := dropped s |}.
+  {| out_q := out_q s; in_q := in_q s; events := events s; filt := filt s; clock := clock s; wire := wire s; spont := spont s; locked := locked s; lk := lk s; locked_q := locked_q s; sync_mode := sync_mode s; sync_q := sync_q s; a_pc := a_pc s; a_script := a_script s; a_start := a_start s; a_vbuf := a_vbuf s; a_late := a_late s; r_pc := r_pc s; r_buf := r_buf s; w_pc := w_pc s; c_pc := c_pc s; emitted := v; delivered := delivered s; dispatched := dispatched s; returned := returned s; retrieved := retrieved s; dropped := dropped s; taken := taken s; got := got s; cleared := cleared s |}.
 Definition set_delivered (v : list msg) (s : state) : state :=
-  {| out_q := out_q s; in_q := in_q s; events := events s; filt := filt s; clock := clock s; wire := wire s; spont := spont s; locked := locked s; lk := lk s; locked_q := locked_q s; sync_mode := sync_mode s; sync_q := sync_q s; a_pc := a_pc s; a_script := a_script s; a_start := a_start s; a_vbuf := a_vbuf s; a_late := a_late s; r_pc := r_pc s; r_buf := r_buf s; w_pc := w_pc s; c_pc := c_pc s; emitted := emitted s; delivered := v; dispatched := dispatched s; returned := returned s; retrieved := retrieved s; dropped := dropped s |}.
+  {| out_q := out_q s; in_q := in_q s; events := events s; filt := filt s; clock := clock s; wire := wire s; spont := spont s; locked := locked s; lk := lk s; locked_q := locked_q s; sync_mode := sync_mode s; sync_q := sync_q s; a_pc := a_pc s; a_script := a_script s; a_start := a_start s; a_vbuf := a_vbuf s; a_late := a_late s; r_pc := r_pc s; r_buf := r_buf s; w_pc := w_pc s; c_pc := c_pc s; emitted := emitted s; delivered := v; dispatched := dispatched s; returned := returned s; retrieved := retrieved s; dropped := dropped s; taken := taken s; got := got s; cleared := cleared s |}.
 Definition set_dispatched (v : list msg) (s : state) : state :=
-  {| out_q := out_q s; in_q := in_q s; events := events s; filt := filt s; clock := clock s; wire := wire s; spont := spont s; locked := locked s; lk := lk s; locked_q := locked_q s; sync_mode := sync_mode s; sync_q := sync_q s; a_pc := a_pc s; a_script := a_script s; a_start := a_start s; a_vbuf := a_vbuf s; a_late := a_late s; r_pc := r_pc s; r_buf := r_buf s; w_pc := w_pc s; c_pc := c_pc s; emitted := emitted s; delivered := delivered s; dispatched := v; returned := returned s; retrieved := retrieved s; dropped := dropped s |}.
+  {| out_q := out_q s; in_q := in_q s; events := events s; filt := filt s; clock := clock s; wire := wire s; spont := spont s; locked := locked s; lk := lk s; locked_q := locked_q s; sync_mode := sync_mode s; sync_q := sync_q s; a_pc := a_pc s; a_script := a_script s; a_start := a_start s; a_vbuf := a_vbuf s; a_late := a_late s; r_pc := r_pc s; r_buf := r_buf s; w_pc := w_pc s; c_pc := c_pc s; emitted := emitted s; delivered := delivered s; dispatched := v; returned := returned s; retrieved := retrieved s; dropped := dropped s; taken := taken s; got := got s; cleared := cleared s |}.
 Definition set_returned (v : list (op * result)) (s : state) : state :=
-  {| out_q := out_q s; in_q := in_q s; events := events s; filt := filt s; clock := clock s; wire := wire s; spont := spont s; locked := locked s; lk := lk s; locked_q := locked_q s; sync_mode := sync_mode s; sync_q := sync_q s; a_pc := a_pc s; a_script := a_script s; a_start := a_start s; a_vbuf := a_vbuf s; a_late := a_late s; r_pc := r_pc s; r_buf := r_buf s; w_pc := w_pc s; c_pc := c_pc s; emitted := emitted s; delivered := delivered s; dispatched := dispatched s; returned := v; retrieved := retrieved s; dropped := dropped s |}.
+  {| out_q := out_q s; in_q := in_q s; events := events s; filt := filt s; clock := clock s; wire := wire s; spont := spont s; locked := locked s; lk := lk s; locked_q := locked_q s; sync_mode := sync_mode s; sync_q := sync_q s; a_pc := a_pc s; a_script := a_script s; a_start := a_start s; a_vbuf := a_vbuf s; a_late := a_late s; r_pc := r_pc s; r_buf := r_buf s; w_pc := w_pc s; c_pc := c_pc s; emitted := emitted s; delivered := delivered s; dispatched := dispatched s; returned := v; retrieved := retrieved s; dropped := dropped s; taken := taken s; got := got s; cleared := cleared s |}.
 Definition set_retrieved (v : list (option msg)) (s : state) : state :=
-  {| out_q := out_q s; in_q := in_q s; events := events s; filt := filt s; clock := clock s; wire := wire s; spont := spont s; locked := locked s; lk := lk s; locked_q := locked_q s; sync_mode := sync_mode s; sync_q := sync_q s; a_pc := a_pc s; a_script := a_script s; a_start := a_start s; a_vbuf := a_vbuf s; a_late := a_late s; r_pc := r_pc s; r_buf := r_buf s; w_pc := w_pc s; c_pc := c_pc s; emitted := emitted s; delivered := delivered s; dispatched := dispatched s; returned := returned s; retrieved := v; dropped := dropped s |}.
+  {| out_q := out_q s; in_q := in_q s; events := events s; filt := filt s; clock := clock s; wire := wire s; spont := spont s; locked := locked s; lk := lk s; locked_q := locked_q s; sync_mode := sync_mode s; sync_q := sync_q s; a_pc := a_pc s; a_script := a_script s; a_start := a_start s; a_vbuf := a_vbuf s; a_late := a_late s; r_pc := r_pc s; r_buf := r_buf s; w_pc := w_pc s; c_pc := c_pc s; emitted := emitted s; delivered := delivered s; dispatched := dispatched s; returned := returned s; retrieved := v; dropped := dropped s; taken := taken s; got := got s; cleared := cleared s |}.
 Definition set_dropped (v : list msg) (s : state) : state :=
-  {| out_q := out_q s; in_q := in_q s; events := events s; filt := filt s; clock := clock s; wire := wire s; spont := spont s; locked := locked s; lk := lk s; locked_q := locked_q s; sync_mode := sync_mode s; sync_q := sync_q s; a_pc := a_pc s; a_script := a_script s; a_start := a_start s; a_vbuf := a_vbuf s; a_late := a_late s; r_pc := r_pc s; r_buf := r_buf s; w_pc := w_pc s; c_pc := c_pc s; emitted := emitted s; delivered := delivered s; dispatched := dispatched s; returned := returned s; retrieved := retrieved s; dropped := v |}.
+  {| out_q := out_q s; in_q := in_q s; events := events s; filt := filt s; clock := clock s; wire := wire s; spont := spont s; locked := locked s; lk := lk s; locked_q := locked_q s; sync_mode := sync_mode s; sync_q := sync_q s; a_pc := a_pc s; a_script := a_script s; a_start := a_start s; a_vbuf := a_vbuf s; a_late := a_late s; r_pc := r_pc s; r_buf := r_buf s; w_pc := w_pc s; c_pc := c_pc s; emitted := emitted s; delivered := delivered s; dispatched := dispatched s; returned := returned s; retrieved := retrieved s; dropped := v; taken := taken s; got := got s; cleared := cleared s |}.
+Definition set_taken (v : list msg) (s : state) : state :=
+  {| out_q := out_q s; in_q := in_q s; events := events s; filt := filt s; clock := clock s; wire := wire s; spont := spont s; locked := locked s; lk := lk s; locked_q := locked_q s; sync_mode := sync_mode s; sync_q := sync_q s; a_pc := a_pc s; a_script := a_script s; a_start := a_start s; a_vbuf := a_vbuf s; a_late := a_late s; r_pc := r_pc s; r_buf := r_buf s; w_pc := w_pc s; c_pc := c_pc s; emitted := emitted s; delivered := delivered s; dispatched := dispatched s; returned := returned s; retrieved := retrieved s; dropped := dropped s; taken := v; got := got s; cleared := cleared s |}.
+Definition set_got (v : list msg) (s : state) : state :=
+  {| out_q := out_q s; in_q := in_q s; events := events s; filt := filt s; clock := clock s; wire := wire s; spont := spont s; locked := locked s; lk := lk s; locked_q := locked_q s; sync_mode := sync_mode s; sync_q := sync_q s; a_pc := a_pc s; a_script := a_script s; a_start := a_start s; a_vbuf := a_vbuf s; a_late := a_late s; r_pc := r_pc s; r_buf := r_buf s; w_pc := w_pc s; c_pc := c_pc s; emitted := emitted s; delivered := delivered s; dispatched := dispatched s; returned := returned s; retrieved := retrieved s; dropped := dropped s; taken := taken s; got := v; cleared := cleared s |}.
+Definition set_cleared (v : list msg) (s : state) : state :=
+  {| out_q := out_q s; in_q := in_q s; events := events s; filt := filt s; clock := clock s; wire := wire s; spont := spont s; locked := locked s; lk := lk s; locked_q := locked_q s; sync_mode := sync_mode s; sync_q := sync_q s; a_pc := a_pc s; a_script := a_script s; a_start := a_start s; a_vbuf := a_vbuf s; a_late := a_late s; r_pc := r_pc s; r_buf := r_buf s; w_pc := w_pc s; c_pc := c_pc s; emitted := emitted s; delivered := delivered s; dispatched := dispatched s; returned := returned s; retrieved := retrieved s; dropped := dropped s; taken := taken s; got := got s; cleared := v |}.
 
 (** ---- Device.put_message ------------------------------------------------------------------ *)
 
@@ -304,7 +313,7 @@ Definition step_C (cfg : config) (s : state) : state :=
   | CC_Get =>
       match events s with
       | [] => s
-      | m :: r => set_c_pc (CC_C2 m) (set_events r s)
+      | m :: r => set_c_pc (CC_C2 m) (set_events r (set_taken (taken s ++ [m]) s))
       end
   | CC_C2 m => if sync_mode s =? 2 then set_c_pc (CC_S1 m) s else set_c_pc (CC_C5 m) s
   | CC_C5 m =>
@@ -454,16 +463,16 @@ Definition step_A (cfg : config) (s : state) : state :=
       else a_finish cfg (set_sync_mode (cur_mode s) s)
   | A_E3 =>
       if (cur_mode s =? 0) || legacy_sync cfg
-      then a_finish cfg (set_sync_q [] s)
-      else set_a_pc A_E2 (set_sync_q [] s)
+      then a_finish cfg (set_sync_q [] (set_cleared (cleared s ++ sync_q s) s))
+      else set_a_pc A_E2 (set_sync_q [] (set_cleared (cleared s ++ sync_q s) s))
   | A_K1 =>
       if 1 <=? sync_mode s then set_a_pc (A_K2 None) s
       else a_finish cfg (set_retrieved (retrieved s ++ [None]) s)
   | A_K2 dl =>
       match sync_q s with
       | m :: q =>
-          a_finish cfg (set_sync_q q
-            (set_retrieved (retrieved s ++ [if m_pkt m && m_conv m then Some m else None]) s))
+          a_finish cfg (set_sync_q q (set_got (got s ++ [m])
+            (set_retrieved (retrieved s ++ [if m_pkt m && m_conv m then Some m else None]) s)))
       | [] =>
           match cur_wait s with
           | None => s
@@ -517,7 +526,7 @@ Definition init (cfg : config) (script : list op) (sp : list chunk) (locked0 : b
      a_pc := a_begin cfg script; a_script := script; a_start := 0; a_vbuf := []; a_late := 0%nat;
      r_pc := RD_Read; r_buf := []; w_pc := WR_Get None; c_pc := CC_Get;
      emitted := []; delivered := []; dispatched := []; returned := [];
-     retrieved := []; dropped := [] |}.
+     retrieved := []; dropped := []; taken := []; got := []; cleared := [] |}.
 
 (** ---- correspondence with the implementation (evaluated by the harness) -------------- *)
 
@@ -560,7 +569,8 @@ Record obs := mkObs {
   o_clock : N;
   o_locked : bool;
   o_late : nat;
-  o_adone : bool
+  o_adone : bool;
+  o_cleared : list msg
 }.
 
 Definition a_done (s : state) : bool :=
@@ -570,7 +580,7 @@ Definition obs_of (s : state) : obs :=
   {| o_returned := map snd (returned s); o_delivered := delivered s; o_dispatched := dispatched s;
      o_retrieved := retrieved s; o_out_q := out_q s; o_events := events s;
      o_locked_q := locked_q s; o_sync_q := sync_q s; o_clock := clock s;
-     o_locked := locked s; o_late := a_late s; o_adone := a_done s |}.
+     o_locked := locked s; o_late := a_late s; o_adone := a_done s; o_cleared := cleared s |}.
 
 Definition obs_eqb (a b : obs) : bool :=
   list_eqb result_eqb (o_returned a) (o_returned b)
@@ -584,7 +594,8 @@ Definition obs_eqb (a b : obs) : bool :=
   && (o_clock a =? o_clock b)
   && Bool.eqb (o_locked a) (o_locked b)
   && Nat.eqb (o_late a) (o_late b)
-  && Bool.eqb (o_adone a) (o_adone b).
+  && Bool.eqb (o_adone a) (o_adone b)
+  && list_eqb msg_eqb (o_cleared a) (o_cleared b).
 
 (** One case: configuration, script, spontaneous chunks, initial lock mode, schedule
     (thread ids / tick / emit as numbers) and what the implementation did under it. *)
